@@ -473,6 +473,41 @@ def check_override_namespace(ck, R):
     ov = FA(ck, "storage_base.Codec.Strategy.output_key_for_override_key")
     kp = ov.fi.params[-1] if ov.fi.params else "override_key"
 
+    # a table of reserved areas (a dict / set / tuple literal bound once at module or class level) is read as the literal
+    consts = {}
+    for name, v in ov.fi.module.assigns.items():
+        if isinstance(v, (ast.Dict, ast.Set, ast.Tuple, ast.List)) or (isinstance(v, ast.Call) and A.call_attr(v) in ("frozenset", "set", "dict", "tuple")):
+            consts[name] = v
+    c_ = ov.fi.cls
+    while c_ is not None:
+        for st_ in c_.node.body:
+            if isinstance(st_, ast.Assign) and len(st_.targets) == 1 and isinstance(st_.targets[0], ast.Name) and isinstance(st_.value, (ast.Dict, ast.Set, ast.Tuple, ast.List)):
+                consts.setdefault(st_.targets[0].id, st_.value)
+        c_ = getattr(c_, "outer", None)
+
+    def with_tables(e):
+        import copy
+
+        class T(ast.NodeTransformer):
+            def visit_Name(self, n):
+                if isinstance(n.ctx, ast.Load) and n.id in consts and not ov.df.is_local(n.id):
+                    return copy.deepcopy(consts[n.id])
+                return n
+
+            def visit_Attribute(self, n):
+                self.generic_visit(n)
+                if isinstance(n.ctx, ast.Load) and n.attr in consts and isinstance(n.value, ast.Name) and n.value.id in ("self", "cls", ov.fi.cls.name if ov.fi.cls else ""):
+                    return copy.deepcopy(consts[n.attr])
+                return n
+        return T().visit(copy.deepcopy(e)) if consts else e
+
+    def table_keys(e):
+        """keys of the literal table a look-up `T.get(x)` / `T[x]` reads"""
+        t = e.func.value if isinstance(e, ast.Call) and isinstance(e.func, ast.Attribute) and e.func.attr == "get" else (e.value if isinstance(e, ast.Subscript) else None)
+        if isinstance(t, ast.Dict):
+            return [k.value for k in t.keys if isinstance(k, ast.Constant) and isinstance(k.value, str)]
+        return []
+
     def refused_or_escaped(strings_any, negative_ok=False):
         """Under the assumption that every comparison / call on the override key that mentions one of `strings_any` holds:
         is the key refused on every path, or rewritten before it is returned?  (False when no such test exists.)"""
@@ -481,6 +516,11 @@ def check_override_namespace(ck, R):
         def atom(e):
             if isinstance(e, ast.Name) and e.id == kp:
                 return True
+            e = with_tables(e)
+            if isinstance(e, ast.Compare) and len(e.ops) == 1 and isinstance(e.ops[0], (ast.Is, ast.Eq)) and A.is_none(e.comparators[0]) \
+                    and isinstance(e.left, (ast.Call, ast.Subscript)) and (set(strings_any) & set(table_keys(e.left))) and kp in A.names_in(e.left):
+                hits[0] += 1
+                return False         # the look-up of a reserved component in the table of reserved areas finds an entry
             if isinstance(e, (ast.Compare, ast.Call)) and (set(strings_any) & set(A.strings_in(e))) \
                     and kp in A.names_in(e) and not (isinstance(e, ast.Compare) and type(e.ops[0]) in (ast.NotEq, ast.NotIn, ast.IsNot)):
                 hits[0] += 1
